@@ -11,7 +11,10 @@ MANIFEST = {
             "objects) over the table of access sites REGENERATED from the Go source on every run by a go/ast+go/types "
             "translator, via a boolean checker proved sound and complete for every table; what a common lock buys in every "
             "reachable state of a mutex machine (C20_common_lock_excludes); acquire/release balance of pooled connections "
-            "and goroutines per unit of client work in any interleaving (C20_balance, C20_interleaving_balanced), tied to the "
+            "and goroutines per unit of client work in any interleaving (C20_balance, C20_interleaving_balanced); no re-entrant "
+            "lock, an acyclic wait-for graph over locks / Once / connection pool (ranking certificate), no use of a sync.Pool "
+            "value after Put - each a checker proved sound for every table and instantiated at the regenerated one; the table "
+            "covers EVERY package-level variable of the client; accounting is tied to the "
             "source by the regenerated table of Conn(ctx)/Close brackets. Explored, not proved: N goroutines driving one "
             "initialised client (TM, TCC, AT over a fake driver, load-balance selection over opening/closing sessions, "
             "table-meta cache, sql.Open, phase-two requests through the real handler) in a child process built with -race; "
@@ -213,7 +216,8 @@ def run(chk, replay_obj=None):
 
     # ---- (B2) + direct oracle: the real client under the race detector
     data, hsecs = vlib.run_harness("stress", chk.tmp("stress.json"), timeout=secs * 3 + 400, race=True,
-                                   seed=chk.seed, secs=secs, workers=workers, repo=vlib.REPO)
+                                   seed=chk.seed, secs=secs, workers=workers, repo=vlib.REPO,
+                                   maxtarget=(4 if chk.tier == "quick" else 8))
     child = data.get("child")
     reports = race_reports(data.get("race_logs"), vlib.REPO)
     rc = classify_races(reports, rows, set(listed))
